@@ -242,8 +242,13 @@ PROPS = {
         'not_covered': ['races between subscribe / unsubscribe and a background accept or connect (the property\'s "or concurrently with the call")', 'that a peer whose send failed is eventually forgotten (C16)', 'quiescence itself: the contracts speak about the state when a call has returned'],
     },
     'C03': {
-        'units': ['codec', 'handshake', 'pubsub'],
+        'units': ['codec', 'handshake', 'pubsub', 'reqrep', 'routing'],
         'scope': [
+            # after the handshake a peer's octets arrive as queue items in the recv function of every socket type:
+            # nothing they contain (frame count, empty frames, a failed item) may panic there
+            ('reqrep', r'^(ReqSocket|RepSocket)::recv$', S, None),
+            ('routing', r'^(RouterSocket|DealerSocket|PullSocket|SubSocket|XPubSocket)::recv$', S, None),
+            ('pubsub', r'^XPubSocket::recv$', S, None),
             # the PUB / XPUB subscription-message parser: octets from a subscriber
             ('pubsub', r'^(PubSocketBackend|XPubSocketBackend)::message_received$', A, None),
             ('pubsub', r'^ZmqMessage::into_vec$', A, None),
